@@ -29,13 +29,17 @@ type ResetProcessor struct {
 	target       interface{}
 	paths        []tree.Path
 	visitedNodes map[*yaml.Node][]string
+	// resolving holds the alias targets currently being expanded (an alias to one of them is a cycle)
+	resolving map[*yaml.Node]bool
 }
 
 // UnmarshalYAML implement yaml.Unmarshaler
 func (p *ResetProcessor) UnmarshalYAML(value *yaml.Node) error {
 	p.visitedNodes = make(map[*yaml.Node][]string)
+	p.resolving = make(map[*yaml.Node]bool)
 	resolved, err := p.resolveReset(value, tree.NewPath())
 	p.visitedNodes = nil
+	p.resolving = nil
 	if err != nil {
 		return err
 	}
@@ -56,6 +60,11 @@ func (p *ResetProcessor) resolveReset(node *yaml.Node, path tree.Path) (*yaml.No
 			return nil, err
 		}
 
+		if p.resolving[node.Alias] {
+			return nil, fmt.Errorf("cycle detected: alias at path %s references a node it is part of", path)
+		}
+		p.resolving[node.Alias] = true
+		defer delete(p.resolving, node.Alias)
 		return p.resolveReset(node.Alias, path)
 	}
 
